@@ -138,7 +138,12 @@ def record(src):
             case = {'kind': 'lookup', 'db': src['db'], 'n': n, 'tt': [_rows(t) for t in tt], 'exc': '', 'found': False,
                     'present': _normal_label(tt) in raw, 'src': {'k': 'lookups', 'db': src['db'], 'tables': [[n, tt]]}}
             try:
-                res = db.get_by_raw_truth_table([[bool(v) for v in t] for t in tt])
+                rows = [[bool(v) for v in t] for t in tt]
+                # the documented argument type is Sequence[Sequence[bool]]: rows may be tuples
+                shape = (sum(map(sum, tt)) + len(tt)) % 3
+                arg = rows if shape == 0 else [tuple(r_) for r_ in rows] if shape == 1 else tuple(tuple(r_) for r_ in rows)
+                case['rows_as'] = ['lists', 'tuples', 'tuple-of-tuples'][shape]
+                res = db.get_by_raw_truth_table(arg)
                 if res is not None:
                     case['found'] = True
                     case['res'] = project(res)
